@@ -34,20 +34,30 @@ re-formatting, `split(" ", 1)`, blank removal, `strip`, `upper`, then the back e
                         `num_label`, `num_label_offset`) this is "however the operand is spelled".
 * `asm_ws_case`         invariance under blanks/tabs and letter case (mnemonic, X/Y register letter).
 * `asm_total`           for EVERY text the result is bytes or one of the three refusals.
-* `asm_sound_partial`   "never mis-assembles" for every text: if bytes come back then `normalize_and_split`
-                        produced an (opcode, operand) pair whose operand is the canonical text of some
-                        (shape, value) and the bytes are the documented encoding of (opcode, shape,
-                        value).  What is NOT proved (carried by the correspondence and by the
-                        soundness oracle of harness/props/c07.py on every generated input): that this
-                        (opcode, shape, value) is the one the token sequence of the ORIGINAL text
-                        denotes under `Spec.Asm.parse` -- i.e. the inversion of the `Statement` scanner
-                        for arbitrary text:
-                          theorem asm_sound (full statement): assembleL d P s pc = .ok bs →
-                            ∃ m sh w x, Spec.Asm.parse s = some (m, sh, w) ∧ value P sh w = .ok x ∧
-                              Documented v W ⟨m, sh, x⟩ pc bs
-                        (`value`: `numberL P w`, or `ord c` for a character literal `'c'`).
+* `asm_sound_partial`   "never mis-assembles" for every text, first half: if bytes come back then
+                        `normalize_and_split` produced an (opcode, operand) pair whose operand is the canonical
+                        text of some (shape, value) and the bytes are the documented encoding of (opcode, shape,
+                        value).
+* `asm_sound`           "never mis-assembles" for every text, FULL (lemmas: Py65/Proofs/AsmSound.lean): if bytes
+                        come back for a text `s` then the token sequence of the ORIGINAL text denotes a
+                        statement under the documented syntax, `Spec.Asm.parse s = some (m, sh, w)`, the operand
+                        word has a value, `value P sh w = .ok x` (`numberL P w`, or `ord c` for a character
+                        literal `'c'`; 0 where the shape has no operand), and the bytes are `Spec.encode` of
+                        `(m, sh, x)` at `pc` (`asm_sound_documented`: the same with `Documented`).  This is the
+                        inversion of the `Statement` scanner, `before.split(" ", 1)`, the `target` rewriting and
+                        the fall-back `statement.split(" ", 1)` for ARBITRARY text.
+                        Hypotheses: the parser has the device's address width and in-range label values (as in
+                        `asm_text`), and NO LABEL NAME CONTAINS `(` (`LabelsNoParen`, decidable).  The last one
+                        is necessary: `asm_sound_label_paren` -- with a label `a(b` the text `LDA a(b` assembles
+                        to `A5 05` although its tokens `LDA a ( b` denote nothing (the scanner's operand class
+                        `[^,\s\)]` lets `(` into the operand word; label names are not restricted by py65).
+                        Proving it corrected the Spec's tokeniser in two places (see Spec/Asm.lean): white space
+                        is everything `str.split()` splits at, and a character literal `#'('` is one token
+                        (`asm_sound_charlit_paren`, `asm_sound_newline` show the two texts that the former
+                        tokeniser read differently from the assembler).
 -/
 import Py65.Proofs.AsmRound
+import Py65.Proofs.AsmSound
 import Py65.Props.C15
 
 namespace Py65.Props.C07
@@ -331,10 +341,10 @@ theorem asm_total (hd : IsDevice d v W) (P : Parser) (hwf : P.WF) (s : Str) (pc 
     assembleL d P s pc ≠ .other w :=
   assembleL_ne_other hd.ok P hwf s pc w
 
-/-- `asm_sound_partial` ("never mis-assembles", every text): if bytes come back for ANY text then
-`normalize_and_split` handed the back end an (opcode, operand) pair, the operand is the canonical
+/-- `asm_sound_partial` ("never mis-assembles", every text, first half): if bytes come back for ANY text
+then `normalize_and_split` handed the back end an (opcode, operand) pair, the operand is the canonical
 text of some shape and in-range value, and the bytes are the documented encoding of (opcode, shape,
-value) at `pc`.  See the header for the part that is not proved. -/
+value) at `pc`. -/
 theorem asm_sound_partial (hd : IsDevice d v W) (P : Parser) (s : Str) (pc : Int) (bs : List Int)
     (h : assembleL d P s pc = .ok bs) :
     ∃ opcode operand sh x, normalizeAndSplit d P s = .ok opcode operand ∧
@@ -349,5 +359,65 @@ theorem asm_sound_partial (hd : IsDevice d v W) (P : Parser) (s : Str) (pc : Int
   | overflow => rw [hn] at h; cases h
   | key => rw [hn] at h; cases h
   | other w => rw [hn] at h; cases h
+
+/-- `asm_sound` ("never mis-assembles", every text, FULL): for every device, every parser of the
+device's address width whose label values are in range and whose label names contain no `(`, every
+text `s` and every address `pc`: if the assembler returns bytes then the token sequence of `s`
+denotes a statement `(m, sh, w)` of the documented syntax, the operand word `w` has the value `x`, and
+the bytes are exactly the documented encoding of `(m, sh, x)` at `pc`. -/
+theorem asm_sound (hd : IsDevice d v W) (P : Parser) (hPw : P.width = 2 * W) (hwf : P.WF)
+    (hlab : LabelsNoParen P) (s : Str) (pc : Int) (bs : List Int) (h : assembleL d P s pc = .ok bs) :
+    ∃ m sh w x, Py65.Spec.Asm.parse s = some (m, sh, w) ∧ value P sh w = .ok x ∧
+      encode v W ⟨m, sh, x⟩ pc = .ok bs :=
+  asm_sound_gen hd.ok P hPw hwf hlab s pc bs h
+
+/-- The statement of the header: the bytes are a documented encoding of what the text denotes. -/
+theorem asm_sound_documented (hd : IsDevice d v W) (P : Parser) (hPw : P.width = 2 * W) (hwf : P.WF)
+    (hlab : LabelsNoParen P) (s : Str) (pc : Int) (bs : List Int) (h : assembleL d P s pc = .ok bs) :
+    ∃ m sh w x, Py65.Spec.Asm.parse s = some (m, sh, w) ∧ value P sh w = .ok x ∧
+      Documented v W ⟨m, sh, x⟩ pc bs := by
+  obtain ⟨m, sh, w, x, h1, h2, h3⟩ := asm_sound hd P hPw hwf hlab s pc bs h
+  exact ⟨m, sh, w, x, h1, h2, Or.inl h3⟩
+
+-- non-vacuity: the hypotheses hold for a parser with labels, bytes do come back, and the witnesses are
+-- what the text says (`lda ( tbl ) , y` with `tbl = $10`, blanks and tabs anywhere)
+example : (⟨16, 16, [("tbl".toList, 0x10), ("io.port".toList, 0xfe)]⟩ : Parser).width = 2 * 8 ∧
+    LabelsNoParen ⟨16, 16, [("tbl".toList, 0x10), ("io.port".toList, 0xfe)]⟩ := by decide
+example : (⟨16, 16, [("tbl".toList, 0x10), ("io.port".toList, 0xfe)]⟩ : Parser).WF :=
+  (Py65.Proofs.Num.init_wf 16 16 [("tbl".toList, 0x10), ("io.port".toList, 0xfe)]
+    ⟨16, 16, [("tbl".toList, 0x10), ("io.port".toList, 0xfe)]⟩ (by decide +kernel)).1
+example : assembleL dev6502 ⟨16, 16, [("tbl".toList, 0x10), ("io.port".toList, 0xfe)]⟩ " lda\t( tbl ) , y ".toList 7
+      = .ok [0xb1, 0x10] ∧
+    Py65.Spec.Asm.parse " lda\t( tbl ) , y ".toList = some ("LDA".toList, .indY, "tbl".toList) ∧
+    value ⟨16, 16, [("tbl".toList, 0x10), ("io.port".toList, 0xfe)]⟩ .indY "tbl".toList = .ok 0x10 ∧
+    encode .nmos 8 ⟨"LDA".toList, .indY, 0x10⟩ 7 = .ok [0xb1, 0x10] := by decide +kernel
+-- … and a text that denotes nothing is refused (the contrapositive at work)
+example : Py65.Spec.Asm.parse "LDA $10 ,X,".toList = none ∧
+    assembleL dev6502 ⟨16, 16, []⟩ "LDA $10 ,X,".toList 0 = .syntax := by decide +kernel
+
+/-- `asm_sound_label_paren`: the hypothesis on the label names cannot be dropped.  With a label named
+`a(b` the assembler turns `LDA a(b` into `A5 05`, but the tokens of that text are `LDA`, `a`, `(`, `b`,
+which denote no statement.  (Confirmed on the real assembler; py65 does not restrict label names.) -/
+theorem asm_sound_label_paren :
+    assembleL dev6502 ⟨16, 16, [("a(b".toList, 5)]⟩ "LDA a(b".toList 0 = .ok [0xa5, 0x05] ∧
+    Py65.Spec.Asm.parse "LDA a(b".toList = none ∧
+    ¬ LabelsNoParen ⟨16, 16, [("a(b".toList, 5)]⟩ := by decide +kernel
+
+/-- `asm_sound_charlit_paren`: a character literal is one token.  `LDA #'('` assembles to `A9 28`; the
+tokeniser reads the operand as the single word `#'('` (before the correction of the Spec it split at the
+parenthesis and the text denoted nothing).  `,` `)` and white space as the quoted character are refused
+by the assembler (its scanner ends the operand word there), which soundness permits. -/
+theorem asm_sound_charlit_paren :
+    assembleL dev6502 ⟨16, 16, []⟩ "LDA #'('".toList 0 = .ok [0xa9, 0x28] ∧
+    Py65.Spec.Asm.parse "LDA #'('".toList = some ("LDA".toList, .imm, "'('".toList) ∧
+    value ⟨16, 16, []⟩ .imm "'('".toList = .ok 0x28 ∧
+    assembleL dev6502 ⟨16, 16, []⟩ "LDA #','".toList 0 = .syntax ∧
+    assembleL dev6502 ⟨16, 16, []⟩ "LDA #' '".toList 0 = .syntax := by decide +kernel
+
+/-- `asm_sound_newline`: every white-space character of `str.split()` separates tokens. -/
+theorem asm_sound_newline :
+    assembleL dev6502 ⟨16, 16, []⟩ "LDA\n($10)\x0b,\x1cY\r".toList 0 = .ok [0xb1, 0x10] ∧
+    Py65.Spec.Asm.parse "LDA\n($10)\x0b,\x1cY\r".toList = some ("LDA".toList, .indY, "$10".toList) := by
+  decide +kernel
 
 end Py65.Props.C07
